@@ -92,7 +92,7 @@ def gen_service_program(rng: Any, *, crash: bool = False) -> dict[str, Any]:
     if crash:
         svc = [s for s in steps if s[0] == "service"]
         victim = rng.choice(svc)
-        prog["crash"] = {"sid": victim[1], "when": rng.choice(["running", "after_stop"]), "at": rng.choice([0.25, 0.75, 1.25]), "exc": rng.choice(["ValueError", "Custom", "Group"])}
+        prog["crash"] = {"sid": victim[1], "when": rng.choice(["running", "after_stop"]), "at": rng.choice([0.25, 0.75, 1.25]), "exc": rng.choice(["ValueError", "Custom", "Group", "Group1"])}
     return prog
 
 
@@ -664,7 +664,9 @@ def _leaves(exc: BaseException | None) -> list[BaseException]:
 
 # =========================================================================== C09: task factories
 
-HANDLER_VERDICTS = {"true": True, "false": False, "none": None, "one": 1, "zero": 0}
+# "selective": a handler that declines exactly the exceptions the tasks raise and would accept anything else (`return not
+# isinstance(exc, MyFatalError)`): since it is only ever asked about exceptions that escaped a task, it behaves like "false"
+HANDLER_VERDICTS = {"true": True, "false": False, "none": None, "one": 1, "zero": 0, "selective": False}
 
 
 def gen_factory_program(rng: Any) -> dict[str, Any]:
@@ -677,7 +679,7 @@ def gen_factory_program(rng: Any) -> dict[str, Any]:
         tids[0] += 1
         return tids[0]
 
-    handler = rng.choice([None, "true", "true", "false", "none", "one", "zero"])
+    handler = rng.choice([None, "true", "true", "false", "none", "one", "zero", "selective"])
     swallow = handler is not None and bool(HANDLER_VERDICTS[handler])
     n = rng.randint(3, 14)
     for _ in range(n):
@@ -692,7 +694,7 @@ def gen_factory_program(rng: Any) -> dict[str, Any]:
                     will_crash = True
             spec = {"tid": tid, "via": rng.choice(["start_task", "start_task_soon"]), "from": rng.choice(["owner", "foreign", "foreign_sync", "task", "bare"]),
                     # (0: the task never waits for anything - it is over before whoever spawned it runs again)
-                    "dur": rng.choice([0, 0.125, 0.625, 1.125, 2.625, 5.125]), "outcome": outcome, "exc": rng.choice(["ValueError", "Custom", "Group"]),
+                    "dur": rng.choice([0, 0.125, 0.625, 1.125, 2.625, 5.125]), "outcome": outcome, "exc": rng.choice(["ValueError", "Custom", "Group", "Group1"]),
                     "task_status": rng.random() < 0.5, "name": rng.choice([None, f"task{tid}"]),
                     "func_form": rng.choice(["function", "function", "partial", "object", "unhashable_object", "lambda"])}
             if rng.random() < 0.3:
@@ -889,6 +891,8 @@ class FactoryRun:
             def handler(exc: Exception) -> Any:
                 run.handler_calls.append(exc)
                 run.log("handler", "handler", exc=describe_exc(exc))
+                if prog["handler"] == "selective":
+                    return not any(contains_same(exc, x) for x in run.raised.values())
                 return verdict
 
             if prog.get("handler_form") == "falsy_object":
